@@ -169,6 +169,12 @@ def prog_heuristic(env, case):
             if first_wc is not None:
                 env.check_eq(r['const'], first_wc - tol, "heuristic row bound is not (first optimum - tol)",
                              signature=tag + ":%s:extra-row-bound" % backend)
+            elif not env.sym:
+                dual_value = float(c01.residue(m.pep).get('c', 0))      # = the first (original) problem's optimum
+                env.check(abs(float(r['const']) - (dual_value - float(tol))) <= 2e-3 * (1 + abs(dual_value)),
+                          "heuristic row bound %g is not (first optimum %g - tol %g)" % (float(r['const']), dual_value,
+                                                                                        float(tol)),
+                          signature=tag + ":%s:extra-row-bound" % backend)
     return "ok"
 
 
@@ -295,6 +301,7 @@ def cases(tier):
     add("heuristic-gd", kind='heuristic')
     add("heuristic-lmi", kind='heuristic', lmis=['sym2'])
     add("heuristic-qg", kind='heuristic', fclass='qg', stationary=False)
+    add("heuristic-negative-optimum", kind='heuristic', fclass='sc', stationary=False, negative=True)
     if tier == 'thorough':
         add("composite", second='convex', steps=['grad', 'prox'])
         add("three-lmis-reversed", lmis=['sym2', 'one', 'three'], lmi_objects=True, lmi_reversed=True)
